@@ -34,7 +34,6 @@ package cisco
 //vc:maprange[C16] (*parser).addDefaults 1 "for k, vl := range defaultObjects" accumulate adds default objects under their own (prefix,name) key if absent
 //vc:maprange[C16] (*parser).checkReferences 1 "for _, m := range lookup" first-match early return only with an error; which dangling reference is named in the message depends on the order, exit status does not (error text is not an observable of C16); addDefaultObject inserts under the referenced key only
 //vc:maprange[C16] (*parser).checkReferences 2 "for _, cmdList := range m" first-match see loop 1
-//vc:maprange[C16] matchCryptoMap$3 1 "for seq, l := range seqMap" accumulate (loop removed by fix 1428671: iteration is over sorted keys now)
 //vc:maprange[C16] postprocessParsed 1 "access-list" accumulate rewrites each visited command from its own text
 //vc:maprange[C16] postprocessParsed 2 "ip access-list extended" accumulate rewrites each visited command from its own text
 //vc:maprange[C16] postprocessParsed 3 "aaa-server" accumulate per name: rewrites the commands of that name and stores them under the same key; Abort only changes the error text
